@@ -230,8 +230,8 @@ impl C13 {
             esc(&mid),
             esc(&mid_in)
         );
-        let s0 = Step { uid: 0, outs: vec![mid.clone()], nexp: 1, ins: vec!["s0".into()], imp: vec![], oo: vec![], val: vec![], phony: false, ver: 0, pool: None, rsp: None, deps: 0, restat: false, regen: false };
-        let s1 = Step { uid: 1, outs: vec!["final".into()], nexp: 1, ins: vec![mid.clone()], imp: vec![], oo: vec![], val: vec![], phony: false, ver: 0, pool: None, rsp: None, deps: 1, restat: false, regen: false };
+        let s0 = Step { uid: 0, outs: vec![mid.clone()], nexp: 1, ins: vec!["s0".into()], imp: vec![], oo: vec![], val: vec![], phony: false, ver: 0, pool: None, rsp: None, deps: 0, restat: false, regen: false, subgen: false };
+        let s1 = Step { uid: 1, outs: vec!["final".into()], nexp: 1, ins: vec![mid.clone()], imp: vec![], oo: vec![], val: vec![], phony: false, ver: 0, pool: None, rsp: None, deps: 1, restat: false, regen: false, subgen: false };
         let proj = Proj { manifest: "build.ninja".into(), sources: vec!["s0".into(), hdr.clone()], steps: vec![s0, s1], pools: vec![], order: vec![0, 1], defaults: vec![], builddir: None, style: 0 };
         let mut world = World::new(proj);
         world.write_source("s0");
